@@ -803,13 +803,28 @@ def _frames(path):
             mu = np.array(g["mu"])
             fr = {"step": int(g.attrs["step"]), "abs_psi": np.abs(psi), "supercurrent": np.array(g["supercurrent"]),
                   "normal_current": np.array(g["normal_current"]), "mu_diff": mu - mu[0], "psi": psi, "mu": mu,
-                  "induced_vector_potential": np.array(g["induced_vector_potential"]).ravel(), "iters": None}
+                  "induced_vector_potential": np.array(g["induced_vector_potential"]).ravel(), "iters": None,
+                  "A_applied": np.array(g["applied_vector_potential"]) if "applied_vector_potential" in g else None}
             if "running_state" in g and "screening_iterations" in g["running_state"]:
                 dts = np.atleast_1d(np.array(g["running_state"]["dt"])).reshape(-1)
                 its = np.atleast_1d(np.array(g["running_state"]["screening_iterations"])).reshape(-1)
                 fr["iters"] = [int(x) for x, d in zip(its, dts) if d > 0]
             out.append(fr)
     return out
+
+
+def _ramp_parameter(tdgl, B0, B1, T, c=(0.0, 0.0)):
+    """A time-dependent tdgl.Parameter: the symmetric-gauge potential of a uniform field ramped linearly from B0 (t = 0) to B1
+    (t >= T) about the origin, plus a constant vector c; field_units * length_units."""
+    def ramped_field_vector_potential(x, y, z, *, t, B0, B1, T, cx, cy):
+        x, y = np.atleast_1d(x), np.atleast_1d(y)
+        B = B0 + (B1 - B0) * min(max(t / T, 0.0), 1.0)
+        out = np.zeros((len(x), 3))
+        out[:, 0] = -B * y / 2 + cx
+        out[:, 1] = B * x / 2 + cy
+        return out
+    return tdgl.Parameter(ramped_field_vector_potential, time_dependent=True, B0=float(B0), B1=float(B1), T=float(T),
+                          cx=float(c[0]), cy=float(c[1]))
 
 
 def _shift_parameter(tdgl, c):
@@ -853,7 +868,15 @@ def gauge_run_pair(tdgl, a, tmp):
         cur = devices.balanced_currents(kind, a.get("current", 0.0)) if kind not in ("film", "ring") else None
         kw = {} if cur is None else {"terminal_currents": cur}
         dev = _device(tdgl, a)
-        A1 = ConstantField(field, field_units="mT", length_units="um")
+        ramp = a.get("ramp")        # (B0, B1, T): a time-dependent applied potential, the field ramped over many steps
+        if ramp and a["mode"] == "translate":
+            from tdgl.sources import LinearRamp
+            mk = lambda: ConstantField(ramp[1], field_units="mT", length_units="um") * LinearRamp(tmin=0, tmax=ramp[2])   # noqa: E731
+        elif ramp:
+            mk = lambda: _ramp_parameter(tdgl, *ramp)       # noqa: E731
+        else:
+            mk = lambda: ConstantField(field, field_units="mT", length_units="um")      # noqa: E731
+        A1 = mk()
         runs = {}
         if a["mode"] == "translate":
             dev2 = _device(tdgl, a)
@@ -862,11 +885,11 @@ def gauge_run_pair(tdgl, a, tmp):
             runs["A"], raised["A"] = _solve_frames(tdgl, dev, _options(tdgl, a, os.path.join(work, "a.h5"), (N0 + N) * dt - dt / 2),
                                                    applied_vector_potential=A1, **kw)
             runs["B"], raised["B"] = _solve_frames(tdgl, dev2, _options(tdgl, a, os.path.join(work, "b.h5"), (N0 + N) * dt - dt / 2),
-                                                   applied_vector_potential=ConstantField(field, field_units="mT", length_units="um"), **kw)
+                                                   applied_vector_potential=mk(), **kw)
             info = {"sites": len(dev.mesh.sites)}
         else:
             c = a["shift"]                      # in mT * um
-            A2 = ConstantField(field, field_units="mT", length_units="um") + _shift_parameter(tdgl, c)
+            A2 = _ramp_parameter(tdgl, *ramp, c=c) if ramp else mk() + _shift_parameter(tdgl, c)
             # dimensionless shift: what the solver itself makes of the two potentials on the edges
             p1 = tdgl.TDGLSolver(dev, _options(tdgl, a, None, dt), applied_vector_potential=A1, **kw)
             p2 = tdgl.TDGLSolver(dev, _options(tdgl, a, None, dt), applied_vector_potential=A2, **kw)
@@ -915,6 +938,8 @@ def gauge_run_pair(tdgl, a, tmp):
         for fa, fb in zip(runs["A"], runs["B"]):
             for k in obs:
                 worst[k] = max(worst[k], float(np.abs(fa[k] - fb[k]).max()) / scale[k])
+        if ramp:      # vacuity guard: the recorded applied potential really changed from frame to frame
+            info["distinct_applied_potentials"] = len({fr["A_applied"].tobytes() for fr in runs["A"] if fr["A_applied"] is not None})
         if a.get("screening"):
             info["screening_iterations"] = {nm: [x for fr in runs[nm] for x in (fr["iters"] or [])] for nm in ("A", "B")}
         info.update({"frames": [len(runs["A"]), len(runs["B"])], "steps": [runs["A"][-1]["step"], runs["B"][-1]["step"]],
